@@ -42,6 +42,8 @@ def case_full(draw, tier):
         N = draw(st.integers(70000, 300000))          # a few records with segment lengths beyond 2^16
     mode = draw(st.sampled_from(["auto", "csd", "csd"]))
     cfg = draw(gens.analysis_config(N, Jmax=120 if N < 70000 else 40, Kmax=60 if N < 70000 else 8, custom=True))
+    if N >= 70000:
+        cfg["backend"] = "numba"      # (the NumPy fallback gathers a K x L matrix per bin: minutes per analysis at this length)
     case = {"N": N, "mode": mode, "cfg": cfg, "fs": draw(st.sampled_from([1.0, 2.0, 1000.0, 0.37, 2.0 ** -6])),
             "rec": draw(gens.pair(N, rel_kinds=REL_W) if mode == "csd" else gens.record(N))}
     return case
@@ -297,13 +299,13 @@ def oracle_band(case):
 
 
 PARTS = [
-    Part("full", case_full, oracle_full, n_quick=60, n_thorough=300),
-    Part("single", case_single, oracle_single, n_quick=150, n_thorough=1200),
-    Part("band", case_band, oracle_band, n_quick=50, n_thorough=200),
-    Part("sweep", case_sweep, oracle_sweep, n_quick=40, n_thorough=150),
+    Part("full", case_full, oracle_full, n_quick=60, n_thorough=120),
+    Part("single", case_single, oracle_single, n_quick=150, n_thorough=600),
+    Part("band", case_band, oracle_band, n_quick=50, n_thorough=80),
+    Part("sweep", case_sweep, oracle_sweep, n_quick=40, n_thorough=60),
 ]
-QUOTAS = {"single:above-nyquist": {"quick": 60, "thorough": 1000}, "distinctL>=3": {"quick": 100, "thorough": 2000}, "band:strict-subset": {"quick": 60, "thorough": 1000},
-          "band:empty": {"quick": 3, "thorough": 50}, "win:kaiser": {"quick": 20, "thorough": 400}}
+QUOTAS = {"single:above-nyquist": {"quick": 60, "thorough": 1000}, "distinctL>=3": {"quick": 100, "thorough": 600}, "band:strict-subset": {"quick": 60, "thorough": 400},
+          "band:empty": {"quick": 3, "thorough": 50}, "win:kaiser": {"quick": 20, "thorough": 200}}
 for _b in ("numba", "numpy"):
     for _o in (-1, 0, 1, 2):
-        QUOTAS["cell:%s,o=%d" % (_b, _o)] = {"quick": 20, "thorough": 400}
+        QUOTAS["cell:%s,o=%d" % (_b, _o)] = {"quick": 20, "thorough": 300}
